@@ -36,7 +36,8 @@ def props_for(rel):
              'src/endpoints/core.c': ['C17', 'C13'], 'src/byte-buffer.c': ['C18', 'C17', 'C13', 'C14'],
              'src/registers/core.c': ['C01', 'C02', 'C03', 'C04', 'C05'], 'src/register-protocol.c': ['C06', 'C07', 'C08', 'C09'],
              'src/variable-length-integer.c': ['C14', 'C13'], 'src/endpoints/buffer.c': ['C17'],
-             'include/ufw/ring-buffer.h': ['C19']}
+             'include/ufw/ring-buffer.h': ['C19'], 'src/endpoints/continuable-sink.c': ['C09', 'C07'], 'src/allocator.c': ['C09'],
+             'src/endpoints/trivial.c': ['C17'], 'src/registers/internal.h': ['C04'], 'include/ufw/bit-operations.h': ['C15', 'C01']}
     out = list(m.get(rel, []))
     for p in extra.get(rel, []):
         if p not in out:
